@@ -225,6 +225,12 @@ func (ph *ptraceHandle) handle(pid int, wstatus unix.WaitStatus) (status runner.
 				ph.Handler.Debug("ptrace stop exec")
 
 			default:
+				if trapCause == 0 && ph.execved {
+					// not a ptrace event but a SIGTRAP sent to the tracee (raise / int3), deliver it
+					ph.Handler.Debug("ptrace stopped by SIGTRAP signal")
+					unix.PtraceCont(pid, int(stopSig))
+					return
+				}
 				ph.Handler.Debug("ptrace unexpected trap cause: ", trapCause)
 			}
 			unix.PtraceCont(pid, 0)
